@@ -20,8 +20,9 @@ theorem ok_merge_opt (main : Res) (o : Option Res) :
     (main.merge [o]).ok = (main.ok && okOpt o) := by simp
 
 /-- schema_props.go:153-193 -/
-theorem anyOfLoop_good {P : JVal → Prop} (cfg : Cfg) (hl : cfg.leaksImportant = false)
+theorem anyOfLoop_good {P : JVal → Prop} (cfg : Cfg)
     {fs : List V} {gs : List (JVal → Bool)} (h : ListAgree P fs gs) (path : String) (v : JVal)
+    (hko : ∀ f ∈ fs, keepRelevant cfg (f path v) = {})
     (hv : P v) (best : Option Res) (hb : BestOK best) (main : Res) (a : Bool) (hm : good main a) :
     good (anyOfLoop cfg path v fs best main {}).1 (a && gs.any (· v))
     ∧ (anyOfLoop cfg path v fs best main {}).2 = {} := by
@@ -36,7 +37,8 @@ theorem anyOfLoop_good {P : JVal → Prop} (cfg : Cfg) (hl : cfg.leaksImportant 
     · simp
   | @cons f g fs gs hfg _ ih =>
     have hr := hfg path v hv
-    simp only [anyOfLoop, keepRelevant_off cfg hl, mergeOne_empty_empty, List.any_cons]
+    have hko' : ∀ f' ∈ fs, keepRelevant cfg (f' path v) = {} := fun f' hf' => hko f' (List.mem_cons_of_mem _ hf')
+    simp only [anyOfLoop, hko f List.mem_cons_self, mergeOne_empty_empty, List.any_cons]
     have hmain : good (absorb main (f path v)) a := ⟨by simp [hm.1, hr.1], by simpa using hm.2⟩
     by_cases hok : (f path v).errors.isEmpty = true
     · have hg : g v = true := by rw [← hr.2]; exact hok
@@ -46,15 +48,16 @@ theorem anyOfLoop_good {P : JVal → Prop} (cfg : Cfg) (hl : cfg.leaksImportant 
       have hg : g v = false := by rw [← hr.2]; exact hok'
       simp only [hok', Bool.false_eq_true, ↓reduceIte, hg, Bool.false_or]
       split
-      · exact ih (some (f path v)) (fun r hr' => by cases hr'; exact ⟨hok', hr.1⟩) _ _ hmain
-      · exact ih best hb _ _ hmain
+      · exact ih hko' (some (f path v)) (fun r hr' => by cases hr'; exact ⟨hok', hr.1⟩) _ _ hmain
+      · exact ih hko' best hb _ _ hmain
 
 def FirstOK (first : Option Res) (n : Nat) : Prop :=
   (n = 0 → first = none) ∧ (0 < n → ∃ r, first = some r ∧ r.ok = true ∧ r.panicked = false)
 
 /-- schema_props.go:195-252 -/
-theorem oneOfLoop_good {P : JVal → Prop} (cfg : Cfg) (hl : cfg.leaksImportant = false)
+theorem oneOfLoop_good {P : JVal → Prop} (cfg : Cfg)
     {fs : List V} {gs : List (JVal → Bool)} (h : ListAgree P fs gs) (path : String) (v : JVal)
+    (hko : ∀ f ∈ fs, keepRelevant cfg (f path v) = {})
     (hv : P v) (first best : Option Res) (n : Nat) (hf : FirstOK first n) (hb : BestOK best)
     (main : Res) (a : Bool) (hm : good main a) :
     good (oneOfLoop cfg path v fs first best n main {}).1 (a && (n + countTrue gs v == 1))
@@ -82,7 +85,8 @@ theorem oneOfLoop_good {P : JVal → Prop} (cfg : Cfg) (hl : cfg.leaksImportant 
       · simp
   | @cons f g fs gs hfg _ ih =>
     have hr := hfg path v hv
-    simp only [oneOfLoop, keepRelevant_off cfg hl, mergeOne_empty_empty]
+    have hko' : ∀ f' ∈ fs, keepRelevant cfg (f' path v) = {} := fun f' hf' => hko f' (List.mem_cons_of_mem _ hf')
+    simp only [oneOfLoop, hko f List.mem_cons_self, mergeOne_empty_empty]
     have hmain : good (absorb main (f path v)) a := ⟨by simp [hm.1, hr.1], by simpa using hm.2⟩
     by_cases hok : (f path v).errors.isEmpty = true
     · have hg : g v = true := by rw [← hr.2]; exact hok
@@ -99,7 +103,7 @@ theorem oneOfLoop_good {P : JVal → Prop} (cfg : Cfg) (hl : cfg.leaksImportant 
             · exact h0
           obtain ⟨r, hr', hok', hp'⟩ := hf.2 this
           exact ⟨r, by simpa [hfi] using hr', hok', hp'⟩
-      have := ih _ best (n + 1) hf' hb _ _ hmain
+      have := ih hko' _ best (n + 1) hf' hb _ _ hmain
       refine ⟨good_congr this.1 ?_, this.2⟩
       congr 2; omega
     · have hok' : (f path v).errors.isEmpty = false := by simpa using hok
@@ -107,12 +111,13 @@ theorem oneOfLoop_good {P : JVal → Prop} (cfg : Cfg) (hl : cfg.leaksImportant 
       have hcount : countTrue (g :: gs) v = countTrue gs v := by simp [countTrue, hg]
       simp only [hok', Bool.false_eq_true, ↓reduceIte, hcount]
       split
-      · exact ih first (some (f path v)) n hf (fun r hr' => by cases hr'; exact ⟨hok', hr.1⟩) _ _ hmain
-      · exact ih first best n hf hb _ _ hmain
+      · exact ih hko' first (some (f path v)) n hf (fun r hr' => by cases hr'; exact ⟨hok', hr.1⟩) _ _ hmain
+      · exact ih hko' first best n hf hb _ _ hmain
 
 /-- schema_props.go:254-278 -/
-theorem allOfLoop_good {P : JVal → Prop} (cfg : Cfg) (hl : cfg.leaksImportant = false)
+theorem allOfLoop_good {P : JVal → Prop} (cfg : Cfg)
     {fs : List V} {gs : List (JVal → Bool)} (h : ListAgree P fs gs) (path : String) (v : JVal)
+    (hko : ∀ f ∈ fs, keepRelevant cfg (f path v) = {})
     (hv : P v) (total n : Nat) (htot : 0 < total) (main : Res) (a : Bool) (hm : good main a)
     (hinv : a = true → n + fs.length = total) :
     good (allOfLoop cfg path v total fs n main {}).1 (a && gs.all (· v))
@@ -138,9 +143,10 @@ theorem allOfLoop_good {P : JVal → Prop} (cfg : Cfg) (hl : cfg.leaksImportant 
       exact ⟨hm, trivial⟩
   | @cons f g fs gs hfg _ ih =>
     have hr := hfg path v hv
-    simp only [allOfLoop, keepRelevant_off cfg hl, mergeOne_empty_empty, List.all_cons]
+    have hko' : ∀ f' ∈ fs, keepRelevant cfg (f' path v) = {} := fun f' hf' => hko f' (List.mem_cons_of_mem _ hf')
+    simp only [allOfLoop, hko f List.mem_cons_self, mergeOne_empty_empty, List.all_cons]
     have hmain := good_mergeOne hm hr
-    have := ih (if (f path v).errors.isEmpty = true then n + 1 else n) _ _ hmain (by
+    have := ih hko' (if (f path v).errors.isEmpty = true then n + 1 else n) _ _ hmain (by
       intro hag
       simp only [Bool.and_eq_true] at hag
       have hn := hinv hag.1
@@ -356,8 +362,9 @@ theorem final_merge (m : Res) (k3 k2 k1 : Option Res) (a : Bool) (hm : good m a)
   obtain ⟨hp, ho⟩ := hm
   exact ⟨by simp [hp, h1p, h2p, h3p], by simp [ho, h1o, h2o, h3o]⟩
 
-theorem anyOfPart_good {P : JVal → Prop} (cfg : Cfg) (hl : cfg.leaksImportant = false)
-    (ik : IKids) (sk : SKids) (hk : ListAgree P ik.anyOf sk.anyOf) (path : String) (v : JVal) (hv : P v)
+theorem anyOfPart_good {P : JVal → Prop} (cfg : Cfg)
+    (ik : IKids) (sk : SKids) (hk : ListAgree P ik.anyOf sk.anyOf) (path : String) (v : JVal)
+    (hko : ∀ f ∈ ik.anyOf, keepRelevant cfg (f path v) = {}) (hv : P v)
     (main : Res) (a : Bool) (hm : good main a) :
     good (anyOfPart cfg ik path v main).1 (a && (sk.anyOf.isEmpty || sk.anyOf.any (· v)))
     ∧ okOpt (anyOfPart cfg ik path v main).2 = true ∧ panickedOpt (anyOfPart cfg ik path v main).2 = false := by
@@ -372,12 +379,13 @@ theorem anyOfPart_good {P : JVal → Prop} (cfg : Cfg) (hl : cfg.leaksImportant 
       cases hs : sk.anyOf with
       | nil => rw [hi, hs] at hlen; simp at hlen
       | cons _ _ => rfl
-    have := anyOfLoop_good cfg hl (hi ▸ hk) path v hv none (fun _ h => by cases h) _ _ hm
+    have := anyOfLoop_good cfg (hi ▸ hk) path v (hi ▸ hko) hv none (fun _ h => by cases h) _ _ hm
     simp only [List.isEmpty_cons, Bool.false_eq_true, ↓reduceIte, hne, Bool.false_or]
     exact ⟨this.1, by rw [this.2]; rfl, by rw [this.2]; rfl⟩
 
-theorem oneOfPart_good {P : JVal → Prop} (cfg : Cfg) (hl : cfg.leaksImportant = false)
-    (ik : IKids) (sk : SKids) (hk : ListAgree P ik.oneOf sk.oneOf) (path : String) (v : JVal) (hv : P v)
+theorem oneOfPart_good {P : JVal → Prop} (cfg : Cfg)
+    (ik : IKids) (sk : SKids) (hk : ListAgree P ik.oneOf sk.oneOf) (path : String) (v : JVal)
+    (hko : ∀ f ∈ ik.oneOf, keepRelevant cfg (f path v) = {}) (hv : P v)
     (main : Res) (a : Bool) (hm : good main a) :
     good (oneOfPart cfg ik path v main).1 (a && (sk.oneOf.isEmpty || countTrue sk.oneOf v == 1))
     ∧ okOpt (oneOfPart cfg ik path v main).2 = true ∧ panickedOpt (oneOfPart cfg ik path v main).2 = false := by
@@ -392,13 +400,14 @@ theorem oneOfPart_good {P : JVal → Prop} (cfg : Cfg) (hl : cfg.leaksImportant 
       cases hs : sk.oneOf with
       | nil => rw [hi, hs] at hlen; simp at hlen
       | cons _ _ => rfl
-    have := oneOfLoop_good cfg hl (hi ▸ hk) path v hv none none 0
+    have := oneOfLoop_good cfg (hi ▸ hk) path v (hi ▸ hko) hv none none 0
       ⟨fun _ => rfl, fun h => by omega⟩ (fun _ h => by cases h) _ _ hm
     simp only [List.isEmpty_cons, Bool.false_eq_true, ↓reduceIte, hne, Bool.false_or]
     exact ⟨good_congr this.1 (by simp), by rw [this.2]; rfl, by rw [this.2]; rfl⟩
 
-theorem allOfPart_good {P : JVal → Prop} (cfg : Cfg) (hl : cfg.leaksImportant = false)
-    (ik : IKids) (sk : SKids) (hk : ListAgree P ik.allOf sk.allOf) (path : String) (v : JVal) (hv : P v)
+theorem allOfPart_good {P : JVal → Prop} (cfg : Cfg)
+    (ik : IKids) (sk : SKids) (hk : ListAgree P ik.allOf sk.allOf) (path : String) (v : JVal)
+    (hko : ∀ f ∈ ik.allOf, keepRelevant cfg (f path v) = {}) (hv : P v)
     (main : Res) (a : Bool) (hm : good main a) :
     good (allOfPart cfg ik path v main).1 (a && sk.allOf.all (· v))
     ∧ okOpt (allOfPart cfg ik path v main).2 = true ∧ panickedOpt (allOfPart cfg ik path v main).2 = false := by
@@ -409,20 +418,21 @@ theorem allOfPart_good {P : JVal → Prop} (cfg : Cfg) (hl : cfg.leaksImportant 
     have : sk.allOf = [] := List.eq_nil_of_length_eq_zero (by rw [← hlen, hi]; rfl)
     simpa [this] using hm
   | cons f fs =>
-    have := allOfLoop_good cfg hl (hi ▸ hk) path v hv (f :: fs).length 0 (by simp) _ _ hm
+    have := allOfLoop_good cfg (hi ▸ hk) path v (hi ▸ hko) hv (f :: fs).length 0 (by simp) _ _ hm
       (by intro _; simp)
     simp only [List.isEmpty_cons, Bool.false_eq_true, ↓reduceIte]
     exact ⟨this.1, by rw [this.2]; rfl, by rw [this.2]; rfl⟩
 
 /-- schema_props.go:101-151 vs. allOf/anyOf/oneOf/not/dependencies of draft 4 -/
-theorem schemaProps_verdict {P : JVal → Prop} (cfg : Cfg) (hl : cfg.leaksImportant = false)
+theorem schemaProps_verdict {P : JVal → Prop} (cfg : Cfg)
     (b : SBase) (ik : IKids) (sk : SKids) (hk : KidsAgree P ik sk) (path : String) (v : JVal)
+    (hko : ∀ f, (f ∈ ik.anyOf ∨ f ∈ ik.oneOf ∨ f ∈ ik.allOf) → keepRelevant cfg (f path v) = {})
     (hv : P v) (hnd : (akeys sk.depSchemas ++ akeys b.depProps).Nodup) :
     good (schemaPropsValidate cfg b ik path v) (compOK sk v && depsOK b sk v) := by
   unfold schemaPropsValidate
-  obtain ⟨h1, h1o, h1p⟩ := anyOfPart_good cfg hl ik sk hk.anyOf path v hv _ _ good_default
-  obtain ⟨h2, h2o, h2p⟩ := oneOfPart_good cfg hl ik sk hk.oneOf path v hv _ _ h1
-  obtain ⟨h3, h3o, h3p⟩ := allOfPart_good cfg hl ik sk hk.allOf path v hv _ _ h2
+  obtain ⟨h1, h1o, h1p⟩ := anyOfPart_good cfg ik sk hk.anyOf path v (fun f hf => hko f (.inl hf)) hv _ _ good_default
+  obtain ⟨h2, h2o, h2p⟩ := oneOfPart_good cfg ik sk hk.oneOf path v (fun f hf => hko f (.inr (.inl hf))) hv _ _ h1
+  obtain ⟨h3, h3o, h3p⟩ := allOfPart_good cfg ik sk hk.allOf path v (fun f hf => hko f (.inr (.inr hf))) hv _ _ h2
   have h4 := notPart_good ik sk hk.not path v hv _ _ h3
   have h5 := depsPart_good b ik sk hk.depSchemas path v hv hnd _ _ h4
   refine good_congr (final_merge _ _ _ _ _ h5 h3o h3p h2o h2p h1o h1p) ?_
